@@ -139,6 +139,13 @@ def U8MAX : Nat := 2 ^ 8 - 1
 def U16MAX : Nat := 2 ^ 16 - 1
 def U32MAX : Nat := 2 ^ 32 - 1
 
+/-- `r.unwrap_or(d)` on the `Result` of a checked operation: `Err` becomes the (already evaluated) default;
+    a panic inside the operation stays a panic -/
+@[inline] def resUnwrapOr {α : Type} : Res α → α → Res α
+  | .ok a, _ => .ok a
+  | .err, d => .ok d
+  | .panic, _ => .panic
+
 /-- `x.unwrap()` / `x.expect(..)` on a `Result` or on an `Option` produced by a checked operation:
     `Err` / `None` becomes a panic -/
 @[inline] def unwrapPanic {α : Type} : Res α → Res α
